@@ -410,6 +410,22 @@ def check(prog, rep, tier):
                 if cap is None or not any(n[0] == "call" and n[1] == ("g", "len") and direct_input(n[2][0], LABELS) for n in walk(cap)):
                     bad = (f"capacity = {nshow(cap) if cap else 'unassigned'}", "the loaded capacity is not derived from the input length")
                     break
+                # capacity = (len(input) - footer bytes) // bytes per slot // bucket_size
+                from ..expr import mapx
+                F_ = C(_struct.calcsize(wfmt))
+                S_ = C(4 if wctx == "CuckooFilter" else 8)
+                B_ = p.fields.get((obj, "_bucket_size"))
+                if B_ is not None:
+                    capx = mapx(strip_epochs(cap), lambda n_: ("BUCKET",) if n_ == strip_epochs(B_) else None)
+                    lens = [n for n in walk(capx) if n[0] == "call" and n[1] == ("g", "len")]
+                    L_ = lens[0] if lens else C(None)
+                    cap, B_ = capx, ("BUCKET",)
+                    body = ("bin", "-", L_, F_)
+                    alts = [("bin", "//", ("bin", "//", body, S_), B_), ("bin", "//", ("bin", "//", body, B_), S_), ("bin", "//", body, ("bin", "*", S_, B_))]
+                    if canon(cap) not in [canon(a) for a in alts]:
+                        bad = (f"capacity = {nshow(cap)}", f"the loaded capacity is {nshow(cap)}; the writer emits capacity x bucket_size slots of {S_[1]} bytes followed by a "
+                               f"{F_[1]}-byte footer, so capacity must be (len - {F_[1]}) // {S_[1]} // bucket_size (the footer must not be counted as slots)")
+                        break
                 bk = p.fields.get((obj, "_buckets"))
                 apps = [e for e in p.events if e.kind == "call" and e.target is None and e.name == "append" and e.recv is not None
                         and (outer_field(e.recv) == "_buckets" or e.recv == bk or (e.recv[0] == "sub" and e.recv[1] == bk)) and e.loops]
@@ -481,6 +497,16 @@ def check(prog, rep, tier):
                 rep.bad("C05.constructs-cls", f"{cname}.{mn}", f"constructs {sorted(kinds)}",
                         f"{cname}.{mn} (defined in {f.cls.name}) returns a {sorted(kinds)}: loading through the subclass yields a different structure "
                         "(e.g. a different query mode)", f.where())
+    # the on-disk filter's bytes() is its file: the stored count must follow every mutator
+    rep.rule("C05.ondisk-count-current", "on-disk Bloom: every mutator of persisted state rewrites the stored count, so bytes()/export carry the current count", floor=1)
+    from ..effects import Effects
+    from .C19 import ondisk_sync_lemma
+    miss = ondisk_sync_lemma(prog, Effects(prog))
+    if miss:
+        rep.bad("C05.ondisk-count-current", f"BloomFilterOnDisk.{miss[0].src_name}", "mutator without footer sync",
+                f"{miss[0].cls.name}.{miss[0].src_name} changes an on-disk filter without rewriting the count in its file: bytes() / a copy of the file then loads with a stale element count", miss[0].where())
+    else:
+        rep.ok("C05.ondisk-count-current", "every mutator of persisted state reaches __update")
     # ---------------------------------------------------------------- what the format does not store is honoured when re-supplied
     rep.rule("C05.resupplied", "parameters the format does not store (hash function, queue limit, table sizes, error rate) are honoured when re-supplied", floor=12)
     HASHF = {"BloomFilter": "_hash_func", "CountingBloomFilter": "_hash_func", "BloomFilterOnDisk": "_hash_func", "ExpandingBloomFilter": "_ExpandingBloomFilter__hash_func",
@@ -560,5 +586,7 @@ MUTANTS = [
     Mutant("cuckoo frombytes applies the error rate before loading", _CK, seq(del_stmt("CuckooFilter", "frombytes", "cku._set_error_rate(error_rate)"), insert_stmt("CuckooFilter", "frombytes", "cku._set_error_rate(error_rate)", before="cku._load(b)")), rule="C05.resupplied"),
     Mutant("loaded sketch reports error_rate 3/width", _CM, replace_expr("CountMinSketch", "_parse_bytes", "2 / self.width", "3 / self.width"), rule="C05.derived"),
     Mutant("loaded sketch keeps confidence 0.0", _CM, del_stmt("CountMinSketch", "_parse_bytes", "self.__confidence ="), rule="C05.derived"),
+    Mutant("counting cuckoo loader counts the footer as slots", _CC, replace_stmt("CountingCuckooFilter", "_parse_buckets", "self._cuckoo_capacity = ", "self._cuckoo_capacity = len(bytes(d)) // (bin_size * self.bucket_size)"), rule="C05.cuckoo"),
+    Mutant("on-disk clear only flushes the mapping", _B, replace_stmt("BloomFilterOnDisk", "clear", "self.__update()", "self._bloom.flush()"), rule="C05.ondisk"),
     Mutant("counting cuckoo export packs max_swaps first", _CC, replace_expr("CountingCuckooFilter", "export", "self.__COUNTING_CUCKOO_FOOTER_STRUCT.pack(self.bucket_size, self.max_swaps)", "self.__COUNTING_CUCKOO_FOOTER_STRUCT.pack(self.max_swaps, self.bucket_size)"), rule="C05.slot"),
 ]
